@@ -121,7 +121,7 @@ def main():
                      "Fuzzy/ART2A kernels, 5 modes, table reset functions; non-trivial = distinct history reaching >= 2 categories",
                      ["exact-rational kernels", "single-epoch calls (max_iter = 1), as the property states"])
     # compound estimators: the invariant on implementation snapshots (no model yet for these)
-    zf, zn = zoo.book_oracle_all(C.make_rng(seed, "C05-zoo"), 60 if tier == "quick" else 600)
+    zf, zn = zoo.book_oracle_all(C.make_rng(seed, "C05-zoo"), 250 if tier == "quick" else 2500)
     import flow
     for f in zf:
         kf = C.match_known("C05", f["signature"])
